@@ -1,0 +1,20 @@
+//go:build verif
+
+package escape
+
+// Contracts for the deductive checks in /verif (comment-only; see /verif/DESIGN.md).
+
+/*@
+assume func utf8.DecodeLastRune(p []byte) (r rune, size int)
+  ensures 0 <= size && size <= 4
+  ensures len(p) == 0 <==> size == 0
+  ensures (len(p) >= 1 && p[len(p)-1] == 226) ==> (r == 65533 && size == 1)
+  ensures (len(p) >= 2 && p[len(p)-2] == 226 && p[len(p)-1] == 128) ==> (r == 65533 && size == 1)
+
+func InternalEscapeBytes(b []byte, startLoc int, breakNewLines, strip bool) (res []byte)
+  requires 0 <= startLoc && startLoc <= len(b)
+  loop 1 invariant startLoc - 1 <= i && i < len(b) && startLoc <= end && end <= len(b)
+  loop 2 invariant startLoc <= i && i <= len(b) && 0 <= k && k <= i
+  loop 3 invariant i <= lastNewLine && lastNewLine <= len(b)
+  ensures len(res) >= 0
+@*/
